@@ -156,6 +156,8 @@ def cschema(s, where, top=False):
     if not isinstance(s, dict):
         fail(f"{where}: schema is not an object")
     keys = set(s) - ANNOTATIONS
+    if "$schema" in s and s["$schema"] != "http://json-schema.org/draft-04/schema#":
+        fail(f"{where}: declares dialect {s['$schema']!r}; the validator model is draft-04")
     if top:
         keys.discard("definitions")
     if "$ref" in keys:
